@@ -132,6 +132,25 @@ def correspondences(tier, rng):
                 if not (lo <= v <= hi and lo <= 0 <= hi): return "location %r outside the axis range %r of %s" % (loc, (lo, hi), a)
         return None
     out.append(Corr("supports", scases, impl_sup, enc=enc_s, oracle=oracle_sup))
+    # ---- the master order itself: getMasterLocationsSortKeyFunc + sorted(), axisOrder listing every axis in any order
+    def sort_case(x):
+        axes, locs, ex = x
+        order = list(axes); rng.shuffle(order)
+        return (order, [dict(l) for l in locs])
+    sortcases = [sort_case(x) for x in scases[:N(tier, 400, 6000)]]
+    def impl_sort(x):
+        order, locs = x
+        m = VariationModel([dict(l) for l in locs], axisOrder=list(order))
+        return [[F(l.get(a, 0)) for a in order] for l in m.locations]
+    def oracle_sort(x):
+        """what the support computation needs from the order: masters with fewer axes come first, and nothing is lost"""
+        order, locs = x
+        m = VariationModel([dict(l) for l in locs], axisOrder=list(order))
+        if sorted(map(lambda l: sorted(l.items()), m.locations)) != sorted(map(lambda l: sorted((k, v) for k, v in l.items() if v != 0), locs)):
+            return "sorting changed the set of locations"
+        ranks = [len(l) for l in m.locations]
+        return None if ranks == sorted(ranks) else "a master with more axes comes before one with fewer: %r" % (m.locations,)
+    out.append(Corr("sort_locations", sortcases, impl_sort, enc=lambda x: [[F(l.get(a, 0)) for a in x[0]] for l in x[1]], oracle=oracle_sort))
     def impl_w(x):
         m = vm(x)
         return [[F(w.get(j, 0)).limit_denominator(10**9) for j in range(i)] for i, w in enumerate(m.deltaWeights)]
